@@ -12,7 +12,7 @@
    then one row per hierarchical reference (ids LEAF FIRST, as in the model) or one row of values.
    Test infrastructure only: no theorem depends on this file. No proofs in this file. *)
 From Coq Require Import List Arith NArith ZArith Bool.
-From SV Require Import Base.Base IR.State IR.NS IR.Ops Hier.Paths Hier.Enum Hier.Trace Hier.Conn Extract.Digest.
+From SV Require Import Base.Base IR.State IR.NS IR.Ops Hier.Paths Hier.Enum Hier.Trace Hier.Conn Hier.TraceRoots Query.Patterns Extract.Digest.
 Import ListNotations.
 Local Open Scope N_scope.
 
@@ -33,7 +33,11 @@ Inductive hq :=
 | HHcables (n : id) (x : sel) (r : bool) (h : href)
 | HHpins (r : bool) (h : href)
 | HInner (h : href)
-| HOuter (h : href).
+| HOuter (h : href)
+(* a collection of roots with patterns (is_case = true, is_re = false): Hier/TraceRoots.v *)
+| HRoots (k : hkind) (n : id) (x : sel) (r : bool) (pats : list str) (roots : list root)
+(* the answer IN YIELD ORDER from one instance reference through the name map (tag row [2] = the code raises) *)
+| HOrdered (k : okind) (r : bool) (pats : list str) (h : href).
 
 Definition fuel_out : list (list N) := [[0]].
 Definition rows (o : option (list href)) : list (list N) :=
@@ -81,6 +85,21 @@ Definition hanswer (s : state) (q : hq) : list (list N) :=
   | HHpins r h => rows (get_hpins s r h)
   | HInner h => rows (Some (opt_list (inner_hwire s h)))
   | HOuter h => rows (Some (opt_list (outer_hwire s h)))
+  | HRoots k n x r pats roots =>
+      let pat := pat_sel (absolute_b true false) (matches_b true false) pats in
+      match k with
+      | HKPin => rows (get_hpins_roots s r pat roots)
+      | HKPort => rows (get_hports_roots s r pat roots)
+      | HKWire => match usum s n with Some u => rows (get_hwires_roots s x r pat u roots) | None => fuel_out end
+      | HKCable => match usum s n with Some u => rows (get_hcables_roots s x r pat u roots) | None => fuel_out end
+      | HKInst => [[1]]
+      end
+  | HOrdered k r pats h =>
+      match get_ordered s k r (absolute_b true false) (matches_b true false) pats h with
+      | None => fuel_out
+      | Some None => [[2]]
+      | Some (Some l) => rows (Some l)
+      end
   end.
 
 (* one session with the driver: ops rebuild / edit the netlist, queries are answered on the current
